@@ -273,6 +273,9 @@ func RunCase(c *Case) *Result {
 	}
 	before := renderKV(userMap)
 	conn := NewConn(segments(c.In, c.Cuts), c.RF, c.WF)
+	if c.Extra["evat"] == "1" {
+		s.log.conn = conn
+	}
 	l := NewListener()
 	served := make(chan error, 1)
 	go func() { served <- srv.Serve(l) }()
@@ -290,9 +293,8 @@ func RunCase(c *Case) *Result {
 	conn.mu.Lock()
 	r.Out = append(r.Out, conn.writes...)
 	r.At = append(r.At, conn.wat...)
-	nev := len(s.log.ev)
 	conn.mu.Unlock()
-	r.Ev = append(r.Ev, s.log.ev[:nev]...)
+	r.Ev = s.log.snapshot()
 	// let the connection goroutine finish, then shut the server down
 	conn.Hangup()
 	deadline := time.Now().Add(20 * time.Second)
